@@ -17,16 +17,16 @@ LEVEL_TEXT = ('every sequence of argument classes (trashable file/dir/symlink, n
               'previous) is executed; exit status must be 0 iff every argument was trashed or legitimately skipped, every failed argument must be named on '
               'stderr, and each argument must end exactly as when it is run alone on the same initial world')
 LEVEL_NOTE = 'trusted: snapshot classifier; end-of-input at an -i prompt is excluded (covered by C01); permission failures are not modelled (root)'
-RULE = ('sequences of length 1..3 (thorough 1..4) over {file, dir, link, missing, dot, dotdot, nonutf8, untrashable, dup} (dup not first) x mode {-, -f, -i all y, '
+RULE = ('sequences of length 1..3 (thorough 1..4) over {file, dir, link, dangling link, missing, dot, dotdot, nonutf8, untrashable, dup} (dup not first) x mode {-, -f, -i all y, '
         '-i all n, -i alternating, -v}; non-trivial = at least two arguments with different outcomes; distinct = (mode, multiset of classes, exit, outcome vector)')
-CLASSES = ['file', 'dir', 'link', 'missing', 'dot', 'dotdot', 'nonutf8', 'untrashable', 'dup']
+CLASSES = ['file', 'dir', 'link', 'dangling', 'missing', 'dot', 'dotdot', 'nonutf8', 'untrashable', 'dup']
 MODES = ['-', '-f', '-iy', '-in', '-ialt', '-v']
 B = '/home/u/w'
 PROMPT = re.compile(r"trash-put: trash .*? '(.*?)'\? ", re.S)
 
 
 def dimensions(tier):
-    return {'classes': 9, 'max_len': 4 if tier == 'thorough' else 3, 'modes': 6}
+    return {'classes': 10, 'max_len': 4 if tier == 'thorough' else 3, 'modes': 6}
 
 
 def cases(tier):
@@ -54,6 +54,9 @@ def make_world(seq):
         elif cl == 'link':
             scen.add_entry(W, '%s/l%d' % (B, i), 'lfile')
             args.append(('l%d' % i, '%s/l%d' % (B, i)))
+        elif cl == 'dangling':
+            scen.add_entry(W, '%s/g%d' % (B, i), 'ldang')
+            args.append(('g%d' % i, '%s/g%d' % (B, i)))
         elif cl == 'missing':
             args.append(('missing%d' % i, None))
         elif cl == 'dot':
